@@ -37,11 +37,20 @@ def run(ctx):
              "worker shuts down) on the real ServerWorker: nothing is served after a graceful stop was received, the queue is "
              "empty after every poll of a worker that is shutting down, and what was queued ends closed")
 
+    # clause "never silently discarded while the server is running and a worker is alive", worker side: whatever the
+    # services' readiness does, what was dispatched to a worker is in its queue until it is called (Worker.tla readiness configs)
+    workerflow.run_check(
+        ctx, design=["MC_worker_ready.cfg"], edge_cfgs=["MC_worker_ready.cfg"], negs={}, invariants=["T_C07_QueueMeasured"],
+        corpus=["worker_ready.ndjson"], tag="c01r", max_paths_quick=250,
+        nontrivial=lambda s, run: any(e.get("t") == "ready" and e.get("a") != 1 for r in run for e in r.get("st", {}).get("pe", [])),
+        rule="worker side of 'never silently discarded': readiness scripts (Pending / Err in every position) against queued "
+             "connections on the real ServerWorker; dispatched and not yet called = measured queue length")
+
     import srvload
     srvload.run(ctx)
 
 
-WINV = ["T_C01_NoCallInShutdown", "T_C01_ShutdownDrainsQueue", "T_C01_DrainReleases"]
+WINV = ["T_C01_NoCallInShutdown", "T_C01_ShutdownDrainsQueue", "T_C01_DrainReleases", "T_C07_QueueMeasured"]
 
 
 def replay(ctx, path):
